@@ -173,15 +173,13 @@ def run(m: Model, r: Report, tier: str) -> None:
     sa = m.require_function(f"{SRV}.RandomUDSServer.security_access")
     ann = sa.param_annotations().get("request")
     base = m.annotation_classes(sa.module, ann, sa.cls)
-    tested = []
-    for n in walk_no_nested(sa.node):
-        if isinstance(n, ast.If) and isinstance(n.test, ast.Call) and ast.unparse(n.test.func) == "isinstance" and ast.unparse(n.test.args[0]) == "request":
-            tested += m.annotation_classes(sa.module, n.test.args[1], sa.cls)
     concrete = [c for b in base for c in m.subclasses(b) if not m.is_abstract_class(c)]
-    uncovered = [c.name for c in concrete if not any(m.is_subclass(c, t) for t in tested)]
-    ends_raise = isinstance(sa.node.body[-1], ast.Raise)
+    from sa.uds_rules import security_access_table
+    _sa, sa_rows = security_access_table(m)
+    evaluated = {k[0] for k, _o, _a in sa_rows}
+    uncovered = sorted({k[0] for k, out, _a in sa_rows if isinstance(out, tuple) and out[0] == "raise"} | {c.name for c in concrete if c.name not in evaluated})
     r.check(bool(concrete) and not uncovered, "R3", f"{sa.qualname}#exhaustive",
-            f"request classes {uncovered} fall through to `raise AssertionError` (the connection would be dropped)" if ends_raise else f"dispatch does not cover {uncovered}", loc=sa.loc)
+            f"request classes {uncovered} are not answered (the handler raises / does not know them: the connection would be dropped)", loc=sa.loc)
     rad = m.require_function(f"{SRV}.RandomUDSServer.respond_after_default")
     falls = isinstance(rad.node.body[-1], ast.Return) and ast.unparse(rad.node.body[-1].value) == "None"
     r.check(falls, "R3", f"{rad.qualname}#fallthrough", "requests no handler claims must fall through to generalReject (return None), not raise", loc=rad.loc)
